@@ -1,11 +1,11 @@
 SPECIFICATION Spec
 CONSTANTS
-  Lats <- LatsPrec
+  Lats <- LatsSmall
   Sizes = {2, 4}
   Steps = {0, 1, 2}
-  Prec = 4
+  Prec = 1
   MaxTime = 12
-  MaxOps = 5
+  MaxOps = 7
   Mutant = "none"
 INVARIANTS TypeOK Bounded Window
 CHECK_DEADLOCK FALSE
